@@ -258,6 +258,31 @@ pub fn purity_letters(seed: u64) -> Vec<(String, u8, Vec<u8>)> {
 
 /// One-picture letters (Sorenson mode, mostly 32x16, distinct contents, temporal references that
 /// collide on purpose) for the history sweep over fresh instances.
+pub fn history_letters_std(seed: u64) -> Vec<(&'static str, Arc<Vec<u8>>)> {
+    let a = |v: Vec<u8>| Arc::new(v);
+    let p_pic = |hdr: Hdr, specs: &[Spec], mbw: usize| -> Vec<u8> {
+        let v1 = hdr.v1();
+        let mut p = Pic { hdr, mbs: mbs_for(specs, mbw, v1, true) };
+        fix_last_flags(&mut p);
+        encode_bytes(&p)
+    };
+    let h = |w: u16, hh: u16, inter: bool, tr: u8| Hdr::Std(StdHdr::custom(w, hh, inter, tr, 5));
+    vec![
+        ("std I", a(encode_bytes(&noise_intra(h(32, 16, false, 0), seed ^ 31)))),
+        ("std P-moving", a(p_pic(h(32, 16, true, 1), &[Spec::NotCoded, Spec::Inter((5, 5), false)], 2))),
+        ("std P-all-not-coded", a(encode_bytes(&Pic { hdr: h(32, 16, true, 2), mbs: vec![Mb::NotCoded, Mb::NotCoded] }))),
+        ("std P-rejected (invalid MVD)", a(encode_bytes(&Pic { hdr: h(32, 16, true, 3), mbs: vec![Mb::inter((1, 1)), Mb::Raw(vec![false, true, true, true, false, false, false, false, false, false, false, false, false, false, false, false, false, false])] }))),
+        ("std I-rejected-mid-picture", a(bad_mid_picture(true))),
+        ("std I-cut-after-first-macroblock", a({
+            let mut p = noise_intra(h(32, 16, false, 4), seed ^ 32);
+            p.mbs.truncate(1);
+            encode_bytes(&p)
+        })),
+        ("std P-tr0-intra+moving", a(p_pic(h(32, 16, true, 0), &[Spec::Intra, Spec::Inter((-3, 2), false)], 2))),
+        ("std I-16x16", a(encode_bytes(&Pic { hdr: h(16, 16, false, 6), mbs: vec![Mb::intra_flat(90)] }))),
+    ]
+}
+
 pub fn history_letters(seed: u64) -> Vec<(&'static str, Arc<Vec<u8>>)> {
     let a = |v: Vec<u8>| Arc::new(v);
     let p_pic = |hdr: Hdr, specs: &[Spec], mbw: usize| -> Vec<u8> {
@@ -287,8 +312,8 @@ pub fn history_letters(seed: u64) -> Vec<(&'static str, Arc<Vec<u8>>)> {
     ]
 }
 
-fn run_history(letters: &[(&'static str, Arc<Vec<u8>>)], word: &[usize]) -> Vec<Obs> {
-    let mut st = H263State::new(options_from_bits(1));
+fn run_history(opts: u8, letters: &[(&'static str, Arc<Vec<u8>>)], word: &[usize]) -> Vec<Obs> {
+    let mut st = H263State::new(options_from_bits(opts));
     word.iter()
         .map(|&l| {
             let o = decode_bytes(&mut st, &letters[l].1);
@@ -300,8 +325,8 @@ fn run_history(letters: &[(&'static str, Arc<Vec<u8>>)], word: &[usize]) -> Vec<
 /// Every history over `history_letters` up to `depth` calls, each executed on `instances` fresh
 /// decoders (every H263State builds its maps with their own hash seeds; the seeds themselves cannot
 /// be enumerated from outside, the instances sample them): all observation sequences must be equal.
-fn history_instances(rep: &Report, seed: u64, depth: usize, instances: usize) {
-    let letters = history_letters(seed);
+fn history_instances(rep: &Report, seed: u64, opts: u8, depth: usize, instances: usize) {
+    let letters = if opts == 0 { history_letters_std(seed) } else { history_letters(seed) };
     let n = letters.len();
     let mut words: Vec<Vec<usize>> = vec![];
     for d in 1..=depth {
@@ -318,7 +343,7 @@ fn history_instances(rep: &Report, seed: u64, depth: usize, instances: usize) {
     let outcomes = std::sync::Mutex::new(std::collections::BTreeSet::new());
     let accepted_after_reject = std::sync::atomic::AtomicU64::new(0);
     words.par_iter().for_each(|w| {
-        let first = run_history(&letters, w);
+        let first = run_history(opts, &letters, w);
         let mut rejected = false;
         for o in &first {
             if o.0 != "Ok" {
@@ -329,14 +354,14 @@ fn history_instances(rep: &Report, seed: u64, depth: usize, instances: usize) {
             }
         }
         for k in 1..instances {
-            let again = run_history(&letters, w);
+            let again = run_history(opts, &letters, w);
             if again != first {
                 let at = (0..first.len()).find(|&i| first[i] != again[i]).unwrap_or(0);
                 let names: Vec<&str> = w.iter().map(|&l| letters[l].0).collect();
                 rep.violation_lazy("C17/history-gives-different-results-on-fresh-instances", || {
                     (
                         format!("history {names:?} on fresh decoder #{k}: call {at} gives {:?}, on the first decoder it gave {:?}", again[at], first[at]),
-                        json!({"kind": "interleaving", "placement": "fresh-instances", "order": [], "instances": [{"name": format!("{names:?}"), "options": 1, "calls": w.iter().map(|&l| hex(&letters[l].1)).collect::<Vec<_>>()}]}),
+                        json!({"kind": "interleaving", "placement": "fresh-instances", "order": [], "instances": [{"name": format!("{names:?}"), "options": opts, "calls": w.iter().map(|&l| hex(&letters[l].1)).collect::<Vec<_>>()}]}),
                     )
                 });
                 break;
@@ -352,8 +377,8 @@ fn history_instances(rep: &Report, seed: u64, depth: usize, instances: usize) {
     rep.add_states(words.len() as u64);
     rep.add_nontrivial(words.len() as u64);
     rep.add_transitions(words.iter().map(|w| (w.len() * instances) as u64).sum());
-    rep.extra("history_letters", json!(letters.iter().map(|l| l.0).collect::<Vec<_>>()));
-    rep.extra("histories_on_fresh_instances", json!({"depth": depth, "histories": words.len(), "instances_per_history": instances, "distinct_call_outcomes": outcomes.into_inner().unwrap().len(), "histories_with_an_accepted_call_after_a_rejected_one": accepted_after_reject.into_inner()}));
+    rep.extra(if opts == 0 { "history_letters_standard_mode" } else { "history_letters" }, json!(letters.iter().map(|l| l.0).collect::<Vec<_>>()));
+    rep.extra(if opts == 0 { "histories_on_fresh_instances_standard_mode" } else { "histories_on_fresh_instances" }, json!({"depth": depth, "histories": words.len(), "instances_per_history": instances, "distinct_call_outcomes": outcomes.into_inner().unwrap().len(), "histories_with_an_accepted_call_after_a_rejected_one": accepted_after_reject.into_inner()}));
 }
 
 /// run a script alone, sequentially
@@ -719,7 +744,8 @@ pub fn run(tier: Tier) -> Report {
         }
     }
     // every history over a ten-letter alphabet, on several fresh instances each
-    history_instances(&rep, seed, if tier.thorough() { 5 } else { 4 }, if tier.thorough() { 12 } else { 8 });
+    history_instances(&rep, seed, 1, if tier.thorough() { 5 } else { 4 }, if tier.thorough() { 12 } else { 8 });
+    history_instances(&rep, seed, 0, if tier.thorough() { 5 } else { 4 }, if tier.thorough() { 12 } else { 8 });
     // free-running threads: sampling, labelled
     let rounds = if tier.thorough() { 400 } else { 60 };
     for r in 0..rounds {
@@ -744,7 +770,7 @@ pub fn run(tier: Tier) -> Report {
     }
     rep.extra("synchronisation_inventory", inv);
     rep.set_rule(
-        "instances with their own histories (8 scripts of 3 calls: I/P/D, rejected mid-picture inputs, prediction without reference, both modes, all option sets): every interleaving (multiset permutation) of the calls of every pair and of triples of scripts, executed under an explicit scheduler on one thread and with one OS thread per instance (token passing); every instance's observations (Ok/Err, hash of picture+header after each call) must equal its solo run; every ordered pair of ~90 one-picture letters decoded back to back on one thread by two fresh decoders (single-call purity); first-initialisation order in fresh child processes; 32 fresh instances per script and 8/12 fresh instances for every history of up to 4/5 calls over a ten-letter alphabet (accepted, rejected and cut I/P/D pictures, colliding temporal references, a second size) - the histories are enumerated, the hash seeds of the instances are sampled; free-running threads (sampling); non-trivial = every interleaving (two or more instances)",
+        "instances with their own histories (8 scripts of 3 calls: I/P/D, rejected mid-picture inputs, prediction without reference, both modes, all option sets): every interleaving (multiset permutation) of the calls of every pair and of triples of scripts, executed under an explicit scheduler on one thread and with one OS thread per instance (token passing); every instance's observations (Ok/Err, hash of picture+header after each call) must equal its solo run; every ordered pair of ~90 one-picture letters decoded back to back on one thread by two fresh decoders (single-call purity); first-initialisation order in fresh child processes; 32 fresh instances per script and 8/12 fresh instances for every history of up to 4/5 calls over a ten-letter Sorenson and an eight-letter standard-mode alphabet (accepted, rejected and cut I/P/D pictures, colliding temporal references, a second size) - the histories are enumerated, the hash seeds of the instances are sampled; free-running threads (sampling); non-trivial = every interleaving (two or more instances)",
     );
     rep.assume("the crates contain no lock, atomic, channel, unsafe or static mut (inventory in the evidence), so a call on one instance has no scheduling point visible to a controlled scheduler: interleavings are explored at call granularity");
     rep
